@@ -150,6 +150,26 @@ FORCERS = {'none': f_none, 'outcomes': f_outcomes, 'faults_windows': f_faults_wi
            'product': f_product}
 
 
+def pre_menu(scn):
+    """one extra (later removed) requirement edge between two siblings, for
+    the pre-run history dimension"""
+    out = []
+    for node, _ in gen.walk(scn['tree']):
+        if not gen.is_sched(node):
+            continue
+        names = [k['name'] for k in node['nodes']]
+        idx = {n: i for i, n in enumerate(names)}
+        edges = [(idx[r], idx[k['name']]) for k in node['nodes']
+                 for r in k['req']]
+        for r in names:
+            for j in names:
+                if r == j or (idx[r], idx[j]) in edges:
+                    continue
+                if gen._acyclic(len(names), edges + [(idx[r], idx[j])]):
+                    out.append(('', 'pre', [[r, j]]))
+    return out
+
+
 def expand(item):
     seen = set()
     k = item.get('k', 0)
@@ -159,6 +179,8 @@ def expand(item):
                              item.get('nest_open', {}),
                              item.get('top_open'))
         menu += [tuple(m) for m in item.get('extra', ())]
+        if item.get('pre'):
+            menu += pre_menu(base)
         for scn, _ in gen.variants(base, menu, k):
             if item.get('adm', True) and not gen.admissible(scn):
                 continue
@@ -203,6 +225,10 @@ def shapes(names, thorough=False):
             yield from gen.nest_shapes(3, 2)
         elif nm == 'nest22':
             yield from gen.nest_shapes(2, 2)
+        elif nm == 'nest20':
+            yield from gen.nest_shapes(2, 0)
+        elif nm == 'nest30':
+            yield from gen.nest_shapes(3, 0)
         elif nm == 'nest21':
             yield from gen.nest_shapes(2, 1)
         elif nm == 'nest23':
